@@ -19,6 +19,7 @@ RULE = (
     "name keymap[k] yields is in the set P of names the decoder actually produces (computed by driving every table sequence and "
     "every single byte through the incremental driver under each encoding); keymap[''] == (); invalid names raise KeyError or map "
     "outside P, nothing else. Non-trivial: tree nodes at depth >=2; config names from each family."
+    ' The lock-step enumeration is repeated under other spellings of the three encodings.'
 )
 ASSUMPTIONS = [
     "a config value cannot end in a space (ConfigParser strips it), so M-<space> is not a nameable key; C-<letter> means lower-case letters as in bpython's config",
